@@ -244,6 +244,7 @@ func lexSegment(l *lexer) error {
 	r := l.next()
 	switch {
 	case unicode.IsLetter(r):
+		l.backup()
 		return lexLiteral(l)
 	case r == '*':
 		rn := l.next()
